@@ -553,6 +553,65 @@ fn run_twin(n: usize, restart: u64) -> Result<u64, String> {
     Ok(vcheck::fp(&a))
 }
 
+// ---- delayed sends that fall due while their sender is shut down --------------------------
+
+struct DelayedTx {
+    restart: Option<u64>,
+    inc: u32,
+}
+impl Module for DelayedTx {
+    fn at_sim_start(&mut self, _: usize) {
+        self.inc += 1;
+        if self.inc == 1 {
+            for (id, at) in [(1u16, 1u64), (2, 3), (3, 8), (4, 13)] {
+                send_in(Message::default().id(id), "out", hs(at));
+            }
+            schedule_in(Message::default().kind(9), hs(2));
+        }
+    }
+    fn handle_message(&mut self, m: Message) {
+        if m.header().kind == 9 {
+            request(self.restart, false);
+        }
+    }
+}
+struct DelayedRx {
+    log: Log,
+}
+impl Module for DelayedRx {
+    fn handle_message(&mut self, m: Message) {
+        lg(&self.log, format!("rx:{}", m.header().id));
+    }
+}
+
+/// `send_in` issued at 0 for the instants 1, 3, 8 and 13; the sender shuts down at 2 and is back
+/// at 2 + restart (or never): a send that falls due while its sender is down passes through
+/// one of the shut-down module's gates and is dropped; the others are delivered on time.
+fn run_delayed_send(restart: Option<u64>) -> Result<u64, String> {
+    let got = quiet_catch(move || {
+        let log: Log = Default::default();
+        let mut sim = Sim::new(());
+        sim.node("tx", DelayedTx { restart, inc: 0 });
+        sim.node("rx", DelayedRx { log: log.clone() });
+        sim.gate("tx", "out").connect(sim.gate("rx", "in"), None);
+        let r = Builder::seeded(1).quiet().max_time(100.0.into()).build(sim.freeze()).run();
+        drop(r);
+        let g = log.lock().unwrap().clone();
+        g
+    })
+    .map_err(|m| format!("panicked: {m}"))?;
+    let up = restart.map(|r| 2 + r);
+    let exp: Vec<String> = [(1u16, 1u64), (2, 3), (3, 8), (4, 13)]
+        .iter()
+        .filter(|(_, at)| *at < 2 || up.is_some_and(|u| *at > u))
+        .map(|(id, at)| format!("rx:{id}@{at}"))
+        .collect();
+    if got != exp {
+        return Err(format!("delayed sends due at 1, 3, 8, 13 (half seconds), sender down from 2 until {up:?}: the peer received {got:?}, expected {exp:?}"));
+    }
+    Ok(vcheck::fp(&got))
+}
+
 struct C09;
 
 impl Property for C09 {
@@ -561,7 +620,7 @@ impl Property for C09 {
     }
     fn rule(&self, tier: Tier) -> String {
         format!(
-            "timelines in half-second units: first shutdown at {{4,6}} x restart delay {{none,0,2,5}} x requested from {{handler, task}} x old task deadline {{2,4,6,7,11,30}} x new task sleep {{1,3}} x second shutdown {{none, +2 no restart, +2 restart 2, +3 restart 0}}              x message route {{to the victim, through a transit gate of the victim}} x {{direct, over a latency channel}} x restart requested by delay or (direct case) by absolute time x every set of up to {} arrival times from {{1,3,4,5,6,8,9,11,13,16}}; plus shutdown requested in each of 3 start stages x restart {{none,0,3}}; plus a second shutdown requested by the restarted incarnation inside its restart event (each of its 3 start stages x restart {{none,0,2,5}}: the restart's stages complete, then inert, second reset, third incarnation on time); plus a module whose every incarnation runs one script (N tasks polled at start and after a sleep, N values drained by one task, N tasks spawned by a handler; N in {{1,2,3,59..63,70,128,129,200}}, restart delay {{0,1,1500}} ms): the restarted incarnation's log, relative to its start, must equal the fresh one's;              oracle: expectation computed from the plan: no callback, task step or timer of the victim inside an inert window, messages inside it dropped (also through its transit gate) and never delivered later, reset once per shutdown, start stages once at exactly the restart time, old tasks never resume, task captures dropped, peer receives exactly the echoes;              an event at exactly the shutdown/restart instant is a tie and accepted either way; non-trivial = timeline with a message or deadline strictly inside an inert window",
+            "timelines in half-second units: first shutdown at {{4,6}} x restart delay {{none,0,2,5}} x requested from {{handler, task}} x old task deadline {{2,4,6,7,11,30}} x new task sleep {{1,3}} x second shutdown {{none, +2 no restart, +2 restart 2, +3 restart 0}}              x message route {{to the victim, through a transit gate of the victim}} x {{direct, over a latency channel}} x restart requested by delay or (direct case) by absolute time x every set of up to {} arrival times from {{1,3,4,5,6,8,9,11,13,16}}; plus shutdown requested in each of 3 start stages x restart {{none,0,3}}; plus send_in issued before the shutdown for instants before, inside and after the down-time (restart none/3/9/30: a send falling due while its sender is down is dropped, the others arrive on time); plus a second shutdown requested by the restarted incarnation inside its restart event (each of its 3 start stages x restart {{none,0,2,5}}: the restart's stages complete, then inert, second reset, third incarnation on time); plus a module whose every incarnation runs one script (N tasks polled at start and after a sleep, N values drained by one task, N tasks spawned by a handler; N in {{1,2,3,59..63,70,128,129,200}}, restart delay {{0,1,1500}} ms): the restarted incarnation's log, relative to its start, must equal the fresh one's;              oracle: expectation computed from the plan: no callback, task step or timer of the victim inside an inert window, messages inside it dropped (also through its transit gate) and never delivered later, reset once per shutdown, start stages once at exactly the restart time, old tasks never resume, task captures dropped, peer receives exactly the echoes;              an event at exactly the shutdown/restart instant is a tie and accepted either way; non-trivial = timeline with a message or deadline strictly inside an inert window",
             tier.pick(2, 3)
         )
     }
@@ -572,7 +631,7 @@ impl Property for C09 {
         ]
     }
     fn required_features(&self, _tier: Tier) -> Vec<&'static str> {
-        vec!["same_instant_tie", "message_inside_inert_window", "repeated_cycle", "request_from_task", "transit_gate_route", "latency_channel", "shutdown_in_start_stage", "restarted_vs_fresh_incarnation", "shutdown_requested_inside_the_restart_event"]
+        vec!["same_instant_tie", "message_inside_inert_window", "repeated_cycle", "request_from_task", "transit_gate_route", "latency_channel", "shutdown_in_start_stage", "restarted_vs_fresh_incarnation", "shutdown_requested_inside_the_restart_event", "delayed_send_due_while_sender_is_down"]
     }
     fn explore(&self, ctx: &mut Ctx) {
         if ctx.is_first_shard() {
@@ -610,6 +669,16 @@ impl Property for C09 {
                         Ok(o) => ctx.outcome(o),
                         Err(d) => ctx.violation("violation", || json!({"restart_stage": stage, "restart2": r2}), d),
                     }
+                }
+            }
+        }
+        if ctx.is_first_shard() {
+            for restart in [None, Some(3u64), Some(9), Some(30)] {
+                ctx.out.evaluations += 1;
+                ctx.hit("delayed_send_due_while_sender_is_down");
+                match run_delayed_send(restart) {
+                    Ok(o) => ctx.outcome(o),
+                    Err(d) => ctx.violation("violation", || json!({"delayed_send_restart": restart, "probe": "delayed_send"}), d),
                 }
             }
         }
@@ -694,6 +763,9 @@ impl Property for C09 {
     fn replay(&self, case: &Value) -> Result<(), String> {
         if let Some(n) = case.get("twin_tasks") {
             return run_twin(n.as_u64().unwrap() as usize, case["restart_ms"].as_u64().unwrap()).map(|_| ());
+        }
+        if case.get("probe").and_then(Value::as_str) == Some("delayed_send") {
+            return run_delayed_send(case["delayed_send_restart"].as_u64()).map(|_| ());
         }
         if let Some(st) = case.get("restart_stage") {
             return run_stage_again(st.as_u64().unwrap() as usize, case["restart2"].as_u64()).map(|_| ());
